@@ -48,6 +48,8 @@ func main() {
 	only := flag.String("files", "", "comma-separated file names (default: all non-test, non-vis files)")
 	limit := flag.Int("limit", 0, "max mutants (0 = all)")
 	stride := flag.Int("stride", 1, "take every n-th mutant")
+	ops2 := flag.Bool("ops2", false, "also: swap adjacent call arguments, delete if statements without else, delete else branches")
+	ops2only := flag.Bool("ops2only", false, "only the ops2 operators")
 	recheck := flag.String("recheck", "", "results file of an earlier run: only re-run the checks on its survivors")
 	flag.Parse()
 	// private copy of the checker: the survey must not be disturbed by rebuilds of the binary
@@ -98,6 +100,9 @@ func main() {
 		}
 		cur := ""
 		add := func(kind string, pos, end token.Pos, repl string) {
+			if *ops2only && kind != "swap-args" && kind != "del-if" && kind != "del-else" {
+				return
+			}
 			p, e := fset.Position(pos), fset.Position(end)
 			muts = append(muts, &mutant{File: base, Line: p.Line, Func: cur, Kind: kind, Old: string(src[p.Offset:e.Offset]), New: repl, off: p.Offset, n: e.Offset - p.Offset})
 		}
@@ -127,8 +132,25 @@ func main() {
 						add("arith", x.OpPos, x.OpPos+1, r)
 					}
 				}
+			case *ast.CallExpr:
+				if *ops2 {
+					for i := 0; i+1 < len(x.Args); i++ {
+						a, b := x.Args[i], x.Args[i+1]
+						as := string(src[fset.Position(a.Pos()).Offset:fset.Position(a.End()).Offset])
+						bs := string(src[fset.Position(b.Pos()).Offset:fset.Position(b.End()).Offset])
+						if as != bs {
+							add("swap-args", a.Pos(), b.End(), bs+", "+as)
+						}
+					}
+				}
 			case *ast.IfStmt:
-				add("negate-if", x.Cond.Pos(), x.Cond.End(), "!("+string(src[fset.Position(x.Cond.Pos()).Offset:fset.Position(x.Cond.End()).Offset])+")")
+				if *ops2 && x.Else == nil && x.Init == nil {
+					add("del-if", x.Pos(), x.End(), "{}")
+				}
+				if *ops2 && x.Else != nil {
+					add("del-else", x.Body.End(), x.Else.End(), "")
+				}
+							add("negate-if", x.Cond.Pos(), x.Cond.End(), "!("+string(src[fset.Position(x.Cond.Pos()).Offset:fset.Position(x.Cond.End()).Offset])+")")
 			case *ast.ExprStmt:
 				if _, ok := x.X.(*ast.CallExpr); ok {
 					add("del-call", x.Pos(), x.End(), "{}")
